@@ -174,6 +174,9 @@ macro_rules! float_suite {
         un_vv::<S, N>(mon, ty, "trunc", Cmp::Ieq, Dom::Any, r * 4, &|a| v(a).trunc().to_array(), &|x: S| x.p_trunc(), &tie_tag::<S>);
         un_vv::<S, N>(mon, ty, "round", Cmp::Ieq, Dom::Any, r * 4, &|a| v(a).round().to_array(), &|x: S| x.p_round(), &tie_tag::<S>);
         un_vv::<S, N>(mon, ty, "fract", Cmp::Ieq, Dom::Any, r * 4, &|a| v(a).fract().to_array(), &|x: S| x.p_fract(), &tie_tag::<S>);
+        // GLSL-style fract = x - floor(x), and map = the closure applied to each lane in order
+        un_vv::<S, N>(mon, ty, "fract_gl", Cmp::Ieq, Dom::Any, r * 2, &|a| v(a).fract_gl().to_array(), &|x: S| x - x.p_floor(), &tie_tag::<S>);
+        un_vv::<S, N>(mon, ty, "map(|x| x * 3 - 1)", Cmp::Ieq, Dom::Any, r, &|a| v(a).map(|x| x * S::of(3.0) - S::of(1.0)).to_array(), &|x: S| x * S::of(3.0) - S::of(1.0), &no_tag1::<S>);
         un_vv::<S, N>(mon, ty, "recip", Cmp::Ieq, Dom::Any, r, &|a| v(a).recip().to_array(), &|x: S| x.p_recip(), &no_tag1::<S>);
         un_vv::<S, N>(mon, ty, "exp", Cmp::Ieq, Dom::Any, r, &|a| v(a).exp().to_array(), &|x: S| x.p_exp(), &no_tag1::<S>);
 
